@@ -120,7 +120,13 @@ def verdicts (strat kind : String) (ms : List MemberS) (ts : Topics) (plan : Pla
   let same : Option Bool := if st ∧ kind = "same" then some (samePlan ms plan) else none
   let leave : Option Bool := if st ∧ kind = "leave" ∧ identicalSubs pm then some (keptAll ms plan) else none
   let join : Option Bool := if st ∧ kind = "join" ∧ identicalSubs pm then some (movedOnlyToJoiners ms plan) else none
-  s!"valid={b01 valid} bal={ob01 bal} rsz={ob01 rsz} rrd={ob01 rrd} same={ob01 same} leave={ob01 leave} join={ob01 join} swap={ob01 swap}"
+  let rejoin : Option Bool :=
+    if strat = "sticky" ∧ kind = "rejoin" ∧ identicalSubs pm then
+      (match latestClean ms with
+       | some g => some (movedOnlyToStale ms plan g)
+       | none => none)
+    else none
+  s!"valid={b01 valid} bal={ob01 bal} rsz={ob01 rsz} rrd={ob01 rrd} same={ob01 same} leave={ob01 leave} join={ob01 join} swap={ob01 swap} rejoin={ob01 rejoin}"
 
 def natList (s : String) : List Nat := (s.splitOn ",").map nat!
 
